@@ -48,49 +48,83 @@ Proof. vm_compute. reflexivity. Qed.
 (* (b) serve loop.  The theorems are generic in the source shape; [serve_loop_verdict] is about the
    shape t16 read from the current mypy/dmypy_server.py + mypy/ipc.py (gen/ServeShape.v). *)
 Theorem daemon_survives : forall sh, serve_repaired sh = true ->
-  forall cmd astate run decode, Statement.daemon_survives cmd astate run decode sh.
-Proof. intros sh R cmd astate run decode. exact (daemon_survives_repaired cmd astate run decode sh R). Qed.
+  forall cmd astate run decode talks, Statement.daemon_survives cmd astate run decode talks sh.
+Proof. intros sh R cmd astate run decode talks. exact (daemon_survives_repaired cmd astate run decode talks sh R). Qed.
 Print Assumptions daemon_survives.
 
 Theorem daemon_survives_refuted : forall sh, recv_catch_os sh = false ->
-  forall cmd astate run decode, Statement.daemon_survives_refuted cmd astate run decode sh.
-Proof. intros sh U cmd astate run decode. exact (daemon_survives_refuted_unguarded cmd astate run decode sh U). Qed.
+  forall cmd astate run decode talks, Statement.daemon_survives_refuted cmd astate run decode talks sh.
+Proof. intros sh U cmd astate run decode talks. exact (daemon_survives_refuted_unguarded cmd astate run decode talks sh U). Qed.
 Print Assumptions daemon_survives_refuted.
 
 Theorem failed_request_preserves_state : forall sh, serve_repaired sh = true ->
-  forall cmd astate run decode, Statement.failed_request_preserves_state cmd astate run decode sh.
-Proof. intros sh R cmd astate run decode. exact (failed_request_preserves_state_repaired cmd astate run decode sh R). Qed.
+  forall cmd astate run decode talks, Statement.failed_request_preserves_state cmd astate run decode talks sh.
+Proof. intros sh R cmd astate run decode talks. exact (failed_request_preserves_state_repaired cmd astate run decode talks sh R). Qed.
 Print Assumptions failed_request_preserves_state.
 
 Theorem later_requests_unaffected : forall sh, serve_repaired sh = true ->
-  forall cmd astate run decode, Statement.later_requests_unaffected cmd astate run decode sh.
-Proof. intros sh R cmd astate run decode. exact (later_requests_unaffected_repaired cmd astate run decode sh R). Qed.
+  forall cmd astate run decode talks, Statement.later_requests_unaffected cmd astate run decode talks sh.
+Proof. intros sh R cmd astate run decode talks. exact (later_requests_unaffected_repaired cmd astate run decode talks sh R). Qed.
 Print Assumptions later_requests_unaffected.
 
 Theorem status_file_removed_on_exit : forall sh, serve_repaired sh = true ->
-  forall cmd astate run decode, Statement.status_file_removed_on_exit cmd astate run decode sh.
-Proof. intros sh R cmd astate run decode. exact (status_file_removed_repaired cmd astate run decode sh R). Qed.
+  forall cmd astate run decode talks, Statement.status_file_removed_on_exit cmd astate run decode talks sh.
+Proof. intros sh R cmd astate run decode talks. exact (status_file_removed_repaired cmd astate run decode talks sh R). Qed.
 Print Assumptions status_file_removed_on_exit.
 
 (* without argument validation a malformed stop request ends the daemon and leaves its status file *)
-Theorem status_file_removed_on_exit_refuted : forall sh cmd astate run decode b,
+Theorem status_file_removed_on_exit_refuted : forall sh cmd astate run decode talks b,
   args_validated sh = false -> b <> [] -> py_len b < two32 -> decode b = PBadArgs true ->
-  forall a, let d := fst (serve cmd astate run decode sh (start astate a) [mk_conn [encode_frame b] true]) in
+  forall a, let d := fst (serve cmd astate run decode talks sh (start astate a) [mk_conn [encode_frame b] true]) in
             ph d = Exited /\ status_file d = true.
-Proof. intros sh cmd astate run decode b. exact (stale_status_unvalidated cmd astate run decode sh b). Qed.
+Proof. intros sh cmd astate run decode talks b. exact (stale_status_unvalidated cmd astate run decode talks sh b). Qed.
 Print Assumptions status_file_removed_on_exit_refuted.
 
 (* without the per-connection reset a later client is answered for bytes an earlier client left behind *)
-Theorem later_requests_unaffected_refuted : forall sh cmd astate run decode b1 b2 b3,
+Theorem later_requests_unaffected_refuted : forall sh cmd astate run decode talks b1 b2 b3,
   reset_on_accept sh = false ->
   b1 <> [] -> b2 <> [] -> b3 <> [] -> py_len b1 < two32 -> py_len b2 < two32 -> py_len b3 < two32 ->
   decode b1 = PUnknown -> decode b2 = PNoCommand -> decode b3 = PCommandNotStr ->
   forall a,
-    snd (serve cmd astate run decode sh (start astate a)
+    snd (serve cmd astate run decode talks sh (start astate a)
            [mk_conn [encode_frame b1 ++ encode_frame b2] true; mk_conn [encode_frame b3] true]) = [ErrUnknown; ErrNoCommand] /\
-    snd (serve cmd astate run decode sh (start astate a) [mk_conn [encode_frame b3] true]) = [ErrNotStr].
-Proof. intros sh cmd astate run decode b1 b2 b3. exact (leftover_leaks_without_reset cmd astate run decode sh b1 b2 b3). Qed.
+    snd (serve cmd astate run decode talks sh (start astate a) [mk_conn [encode_frame b3] true]) = [ErrNotStr].
+Proof. intros sh cmd astate run decode talks b1 b2 b3. exact (leftover_leaks_without_reset cmd astate run decode talks sh b1 b2 b3). Qed.
 Print Assumptions later_requests_unaffected_refuted.
+
+(* stalled clients / idle exit / output to a client that has gone *)
+Theorem stalled_client_does_not_block_forever : forall sh, conn_timeout sh = true -> serve_repaired sh = true ->
+  forall cmd astate run decode talks, Statement.stalled_client_does_not_block_forever cmd astate run decode talks sh.
+Proof. intros sh T R cmd astate run decode talks. exact (stalled_ok cmd astate run decode talks sh T R). Qed.
+Print Assumptions stalled_client_does_not_block_forever.
+
+Theorem stalled_client_blocks_refuted : forall sh, conn_timeout sh = false ->
+  forall cmd astate run decode talks, Statement.stalled_client_blocks_refuted cmd astate run decode talks sh.
+Proof. intros sh T cmd astate run decode talks. exact (stalled_blocks cmd astate run decode talks sh T). Qed.
+Print Assumptions stalled_client_blocks_refuted.
+
+Theorem idle_exit_removes_status_file : forall sh cmd astate run decode talks,
+  Statement.idle_exit_removes_status_file cmd astate run decode talks sh.
+Proof. intros sh cmd astate run decode talks. exact (idle_exit cmd astate run decode talks sh). Qed.
+Print Assumptions idle_exit_removes_status_file.
+
+Theorem status_file_removed_on_exit_events : forall sh, serve_repaired sh = true ->
+  forall cmd astate run decode talks, Statement.status_file_removed_on_exit_events cmd astate run decode talks sh.
+Proof. intros sh R cmd astate run decode talks. exact (status_events_repaired cmd astate run decode talks sh R). Qed.
+Print Assumptions status_file_removed_on_exit_events.
+
+Theorem hangup_during_output_refuted : forall sh, stdout_guarded sh = false ->
+  forall cmd astate run decode talks, Statement.hangup_during_output_refuted cmd astate run decode talks sh.
+Proof. intros sh G cmd astate run decode talks. exact (hangup_during_output cmd astate run decode talks sh G). Qed.
+Print Assumptions hangup_during_output_refuted.
+
+Theorem stall_verdict_current : stall_verdict current_shape.
+Proof. exact (stall_verdict_all current_shape). Qed.
+Print Assumptions stall_verdict_current.
+
+Theorem output_verdict_current : output_verdict current_shape.
+Proof. exact (output_verdict_all current_shape). Qed.
+Print Assumptions output_verdict_current.
 
 (* the loop that is in the source now *)
 Theorem serve_loop_verdict : serve_verdict current_shape.
@@ -98,7 +132,7 @@ Proof. exact (serve_verdict_all current_shape). Qed.
 Print Assumptions serve_loop_verdict.
 
 (* non-vacuity: a repaired shape exists; the hypotheses of the refutations are met by a concrete decoder *)
-Example repaired_shape_exists : serve_repaired {| recv_catch_os := true; recv_catch_unicode := true; reset_on_accept := true; args_validated := true; send_guarded := true |} = true.
+Example repaired_shape_exists : serve_repaired {| recv_catch_os := true; recv_catch_unicode := true; reset_on_accept := true; args_validated := true; send_guarded := true; conn_timeout := true; stdout_guarded := true |} = true.
 Proof. reflexivity. Qed.
 Example survives_hypotheses_met :
   let decode := fun b : bytes => match b with [1%N] => PCmd tt | [2%N] => PStop | _ => @PNotJson unit end in
